@@ -66,7 +66,13 @@ func genC19(r *mon.Rand) *reasm.History {
 		for i, m := 0, r.Range(3, 9); i < m; i++ {
 			switch x := r.Intn(10); {
 			case x < 4:
-				h.Ops = append(h.Ops, reasm.Op{Kind: reasm.OpPushMsg, Seq: h.Base + 10 + uint32(r.Intn(5)), Type: mon.Pick(r, []uint16{1300, 1302, 1307, 1327, reasm.TypeEOE})})
+				// fresh sequence numbers, or (half of the time) the ones used before Close: a record of a sequence
+				// that Close flushed starts a new event like any other late arrival
+				seq := h.Base + 10 + uint32(r.Intn(5))
+				if r.Bool() {
+					seq = h.Base + uint32(r.Intn(6))
+				}
+				h.Ops = append(h.Ops, reasm.Op{Kind: reasm.OpPushMsg, Seq: seq, Type: mon.Pick(r, []uint16{1300, 1302, 1307, 1327, reasm.TypeEOE})})
 			case x < 7:
 				if d := mon.Pick(r, sleeps); d > 0 {
 					h.Ops = append(h.Ops, reasm.Op{Kind: reasm.OpSleep, Sleep: int64(d / time.Microsecond)})
